@@ -159,8 +159,8 @@ def plan(tier, seed):
 
 def _npix_list(shape, tier):
     area = shape[0] * shape[1]
-    lst = sorted({1, 2, 3, area} & set(range(1, area + 1)))
-    return lst
+    lst = {1, 2, 3} | ({area} if (area <= 6 or tier == 'thorough') else set())
+    return sorted(lst & set(range(1, area + 1)))
 
 
 def run_unit(unit, tier, seed):
@@ -176,8 +176,8 @@ def run_unit(unit, tier, seed):
                 continue
             for conn in (4, 8):
                 for npixels in _npix_list(shape, tier):
-                    # the 2-D threshold form is run on a deterministic quarter of the codes
-                    for form in (forms if i % 4 == 0 else forms[:1]):
+                    # the 2-D threshold form is run on a deterministic eighth of the codes
+                    for form in (forms if i % 8 == 0 else forms[:1]):
                         check_case(acc, code, shape, conn, npixels, form, seed,
                                    detect_sources, SegmentationImage, NoDetectionsWarning)
     elif unit['kind'] == 'threshold':
@@ -271,4 +271,4 @@ def describe(tier, seed):
                          'spaces': [{'shape': list(s), 'symbols': list(a), 'images': len(a) ** (s[0] * s[1])}
                                     for s, a in spaces(tier)],
                          'connectivity': [4, 8], 'npixels': '1,2,3,area',
-                         'threshold_form': 'scalar for every image, 2-D map for every 4th image'}}
+                         'threshold_form': 'scalar for every image, 2-D map for every 8th image (by product index)'}}
